@@ -18,12 +18,31 @@ package blobstore
 //@ iface BlobAccess.GetFromComposite
 //@   modifies baCalls(self)
 //@   ensures baCalls(self) == old(baCalls(self)) + 1 && result != nil
+//@ ghost baPutErr(ref) int
 //@ iface BlobAccess.Put
-//@   modifies baCalls(self)
-//@   ensures baCalls(self) == old(baCalls(self)) + 1
+//@   modifies baCalls(self), baPutErr(self)
+//@   ensures baCalls(self) == old(baCalls(self)) + 1 && baPutErr(self) == result
+// fmArg/fmRes/fmErr(b): the set (identified by its backing array) last passed
+// to, and the set and error last returned by, FindMissing on backend b.
+//@ ghost fmArg(ref) int
+//@ ghost fmRes(ref) int
+//@ ghost fmErr(ref) int
 //@ iface BlobAccess.FindMissing
-//@   modifies baCalls(self)
+//@   modifies baCalls(self), fmArg(self), fmRes(self), fmErr(self)
 //@   ensures baCalls(self) == old(baCalls(self)) + 1
+//@   ensures fmArg(self) == base(digests.digests) && fmRes(self) == base(result0.digests) && fmErr(self) == result1
+
+// Property C17: the existence cache in front of a backend. The backend is asked
+// exactly about what the cache could not vouch for, the answer is the
+// backend's, and only objects the backend just confirmed (asked minus missing)
+// are added to the cache — nothing on failure.
+//@ func (*existenceCachingBlobAccess).FindMissing
+//@   requires ba.BlobAccess != nil && ba.existenceCache != nil
+//@   ensures [backend-asked-about-uncached] baCalls(ba.BlobAccess) == old(baCalls(ba.BlobAccess)) + 1 && fmArg(ba.BlobAccess) == ecRemoveRes(ba.existenceCache)
+//@   ensures [answer-is-the-backends] result1 == nil ==> fmErr(ba.BlobAccess) == nil && base(result0.digests) == fmRes(ba.BlobAccess)
+//@   ensures [only-confirmed-objects-cached] result1 == nil ==> ecAdds(ba.existenceCache) == old(ecAdds(ba.existenceCache)) + 1
+//@         && ecAddArg(ba.existenceCache) == gdiOnlyA(ecRemoveRes(ba.existenceCache), fmRes(ba.BlobAccess))
+//@   ensures [nothing-cached-on-failure] result1 != nil ==> result1 == fmErr(ba.BlobAccess) && ecAdds(ba.existenceCache) == old(ecAdds(ba.existenceCache))
 
 //@ pure abaWF(ba) = ba.BlobAccess != nil && ba.getAuthorizer != nil && ba.putAuthorizer != nil && ba.findMissingAuthorizer != nil
 
